@@ -401,6 +401,13 @@ func main() {
 			if strings.HasPrefix(v.class, "write-") {
 				key = "success-" + v.class
 			}
+			// the two recorded stream-V findings are keyed by class AND construct, so that the same
+			// Go error class coming from another construct is a new violation
+			for piece, class := range map[string]string{"late-callee-shadow-pkg": "go-types:undefined-package-name", "paren-complit-header": "go-parse:missing-parentheses-around-composite-literal"} {
+				if v.class == class && strings.Contains(origin, piece) {
+					key += "@" + piece
+				}
+			}
 			if !shrunk[key] {
 				shrunk[key] = true
 				fs = compa.DDMin(fs, 80, func(t compa.Files) bool { w := judge(t); return w.status == "OK-BAD" && w.class == v.class })
